@@ -247,7 +247,7 @@ class KGen:
                 a, b = b, a
             if self.mut == "op" and not self.mut_done:
                 self.mut_done = True
-                op = {"+": "-", "-": "+", "*": "+", "/": "*"}.get(op, op)
+                op = {"+": "-", "-": "+", "*": "/", "/": "*"}.get(op, op)
             return f"({a} {op} {b})"
         if isinstance(e, L.Extern):
             return f"{e.f.name()}({', '.join(self.de(a) for a in e.args)})"
